@@ -157,7 +157,7 @@ def op_tokens(op):
         if op[1] is None:
             return 'reset all'
         names = [op[1]] if isinstance(op[1], str) else op[1]
-        return 'reset ' + ' '.join(key(n) for n in names)
+        return ('reset ' + ' '.join(key(n) for n in names)).strip()
     if kind == 'newCaller':
         return f'newCaller {tree(op[1])}'
     raise ValueError(kind)
@@ -292,9 +292,9 @@ def gen_history(rng, defaults, length, mistyped=False):
         elif r < 0.8:
             ops.append(('setPrms', partial_dict(rng, defaults, mistyped=mistyped)))
         elif r < 0.9:
-            k = rng.choice([1, 1, 2, 3, len(top)])
+            k = rng.choice([1, 1, 2, 3, len(top), 0])        # 0: the empty list of names resets nothing
             names = rng.sample(top, min(k, len(top)))
-            if rng.random() < 0.2:
+            if names and rng.random() < 0.2:
                 names.insert(rng.randrange(len(names) + 1), 'NOT_A_PRM')
             ops.append(('reset', names[0] if len(names) == 1 and rng.random() < 0.5 else names))
         elif r < 0.95:
